@@ -21,6 +21,7 @@ type nodeData struct {
 	archetypeMap      map[Entity]*archetype // Mapping from relation targets to archetypes
 	zeroPointer       unsafe.Pointer        // Points to zeroValue for fast access
 	Types             []reflect.Type        // Component type per column
+	pointerTypes      []reflect.Type        // Component type per column for types containing pointers, nil otherwise
 	Ids               []ID                  // List of component IDs
 	freeIndices       []int32               // Indices of free/inactive archetypes
 	zeroValue         []byte                // Used as source for setting storage to zero
@@ -38,6 +39,7 @@ func newArchNode(mask Mask, data *nodeData, relation ID, hasRelation bool, capac
 	}
 	ids := make([]ID, len(components))
 	types := make([]reflect.Type, len(components))
+	pointerTypes := make([]reflect.Type, len(components))
 
 	var maxSize uintptr = 0
 	prev := -1
@@ -49,6 +51,9 @@ func newArchNode(mask Mask, data *nodeData, relation ID, hasRelation bool, capac
 
 		ids[i] = c.ID
 		types[i] = c.Type
+		if hasPointers(c.Type) {
+			pointerTypes[i] = c.Type
+		}
 		size, align := c.Type.Size(), uintptr(c.Type.Align())
 		size = (size + (align - 1)) / align * align
 		if size > maxSize {
@@ -65,6 +70,7 @@ func newArchNode(mask Mask, data *nodeData, relation ID, hasRelation bool, capac
 
 	data.Ids = ids
 	data.Types = types
+	data.pointerTypes = pointerTypes
 	data.archetypeMap = arch
 	data.capacityIncrement = uint32(capacityIncrement)
 	data.zeroValue = zeroValue
@@ -281,4 +287,26 @@ func (a *archNode) UpdateStats(stats *stats.Node, reg *componentRegistry) {
 	stats.Capacity = cap
 	stats.Size = count
 	stats.Memory = memory
+}
+
+// hasPointers reports whether values of the given type can contain pointers
+// that are relevant to the garbage collector.
+func hasPointers(tp reflect.Type) bool {
+	switch tp.Kind() {
+	case reflect.Bool, reflect.Int, reflect.Int8, reflect.Int16, reflect.Int32, reflect.Int64,
+		reflect.Uint, reflect.Uint8, reflect.Uint16, reflect.Uint32, reflect.Uint64, reflect.Uintptr,
+		reflect.Float32, reflect.Float64, reflect.Complex64, reflect.Complex128:
+		return false
+	case reflect.Array:
+		return tp.Len() > 0 && hasPointers(tp.Elem())
+	case reflect.Struct:
+		for i := 0; i < tp.NumField(); i++ {
+			if hasPointers(tp.Field(i).Type) {
+				return true
+			}
+		}
+		return false
+	default:
+		return true
+	}
 }
